@@ -209,7 +209,7 @@ func TestVerifC20TracerAfterDamage(t *testing.T) {
 				h := http.Header{"Content-Type": {ct}, hdr: {name}}
 				w := map[string]any{"encoding": name, "protocol": proto, "damage_of_first_end_stream_message": labels[di]}
 				pn := verifkit.Catch(func() {
-					rd := newReader(h, io.NopCloser(&vfChunked{data: body, chunk: []int{len(body), 17, 3}[di%3]}), false, bld, func() {})
+					rd := vfNewReader(h, io.NopCloser(&vfChunked{data: body, chunk: []int{len(body), 17, 3}[di%3]}), false, bld, func() {})
 					_, _ = io.Copy(io.Discard, rd)
 					bld.build()
 				})
